@@ -63,12 +63,12 @@ Cmd(id, fail, pad) == [id |-> id, fail |-> fail, pad |-> pad, t |-> "req"]
 \* id is the URI argument (it embeds the request id), empty for channels
 CmdT(t, id) == [id |-> id, fail |-> FALSE, pad |-> 0, t |-> t]
 
-\* request ids: traces "cXnYY" / "cXnYYxZ" (bytes); model <<c, n, j>>
+\* request ids: traces "cXnYYY" / "cXnYYYxZ" (bytes); model <<c, n, j>>
 IdC(id) == IF Unit THEN id[1] ELSE id[2] - 48
-IdN(id) == IF Unit THEN id[2] ELSE (id[4] - 48) * 10 + (id[5] - 48)
+IdN(id) == IF Unit THEN id[2] ELSE (id[4] - 48) * 100 + (id[5] - 48) * 10 + (id[6] - 48)
 IdWellFormed(id) == IF Unit THEN Len(id) = 3
-                    ELSE /\ Len(id) \in {5, 7} /\ id[1] = 99 /\ id[3] = 110
-                         /\ \A i \in {2, 4, 5} : id[i] >= 48 /\ id[i] <= 57
+                    ELSE /\ Len(id) \in {6, 8} /\ id[1] = 99 /\ id[3] = 110
+                         /\ \A i \in {2, 4, 5, 6} : id[i] >= 48 /\ id[i] <= 57
 
 \* frame lines / error line the server produces for one ordinary command at list index idx
 ExecReq(c, idx) ==
@@ -141,7 +141,7 @@ InitW(hasPw, pw, srvPw, hasSrvPw, auth, pic) ==
     alts |-> {[ow |-> <<>>, lx |-> 0]}, lxRep |-> 0, tmo |-> FALSE,
     fault |-> "", poison |-> -1, lostAt |-> -1, obs |-> {}, surfaced |-> FALSE,
     nClosingEv |-> 0, evEnded |-> FALSE, evAfterEnd |-> FALSE, evAfterClosing |-> FALSE,
-    handles |-> 0, ioDropped |-> FALSE, connected |-> "", nconf |-> 0, desync |-> FALSE,
+    handles |-> 0, ioDropped |-> FALSE, connected |-> "", nconf |-> 0, desync |-> FALSE, wst |-> FALSE,
     art |-> <<>>,
     viol |-> <<>> ]
 
@@ -426,7 +426,9 @@ WConnected(w, ok, err, version, nh, greetOk, greetVersion, greetCut) ==
 \* --- timer / quiescence
 \* nothing is left for the loop to send: every request reached the server or was abandoned by its caller
 AllSeen(w) == \A i \in 1..Len(w.reqs) : w.reqs[i].seen \/ w.reqs[i].st = "x"
-WTimeout(w) == [w EXCEPT !.tmo = (w.phase = "up" /\ w.mode = "ready" /\ w.rd = w.wr /\ AllSeen(w) /\ w.fault = "" /\ w.handles > 0 /\ w.nlines > 0)]
+\* (while the transport exerts write backpressure the idle line cannot get out: no obligation arises from this timer expiry)
+WTimeout(w) == [w EXCEPT !.tmo = (w.phase = "up" /\ w.mode = "ready" /\ w.rd = w.wr /\ AllSeen(w) /\ w.fault = "" /\ w.handles > 0 /\ w.nlines > 0 /\ ~w.wst)]
+WStall(w, on) == [w EXCEPT !.wst = on, !.tmo = FALSE]
 
 IsDue(w, e) == /\ e.replyEnd <= w.rd
                /\ (w.poison < 0 \/ e.replyEnd <= w.poison)
